@@ -24,7 +24,7 @@ BOUNDS = {
                   parameters='random_agent/random_exit both values; num_obstacles in [-1, vacant+1] (<=4 vacant cells) resp. {-1..2, vacant+1}; num_rivers in [-1, 4]; river type Wall/MovingObstacle; '
                              'colour subsets: all 32 subsets for memory on one shape, {RED,BLUE},{RED,GREEN,BLUE} elsewhere; num_beacons 0..2, num_exits 1..3',
                   draws='every outcome of every draw (integers, choice with/without replacement, shuffle)'),
-    'thorough': dict(shapes='as quick plus 7x7/8x8 for the draw-poor functions, rooms 9x9 layout 2x2, memory_rooms 5x5 (1x1, 2x2), 5x7/7x5, 7x7 layout 2x2 (1 beacon, 2 exits)', parameters='as quick', draws='every outcome'),
+    'thorough': dict(shapes='as quick plus 7x7/8x8 for the draw-poor functions, rooms 9x9 layout 2x2, memory_rooms 5x5 (1x1, 2x2) (1 beacon, 2 exits); rooms 9x9 layout 2x2 split into 81 obligations by its passage draws', parameters='as quick', draws='every outcome'),
 }
 OUTSIDE = ('the shipped 9x9..13x13 shapes of rooms / memory_rooms and large obstacle counts (10^6-10^8 draw outcomes each); only the two outcomes '
            '"ValueError" and "well-formed state" are distinguished: a ValueError for a combination that could have been honoured is not flagged')
@@ -202,11 +202,11 @@ def rooms_common(sx, st, H, W, lab):
     sx.check(isinstance(st.grid.objects[py][px], Floor), lab + '-agent-on-floor')
 
 
-def mk_rooms(H, W, lays):
+def mk_rooms(H, W, lays, preset=None):
     def h(sx):
         lh = sx.choice('layout_h', lays)
         lw = sx.choice('layout_w', lays)
-        st = call(sx, lambda: R.rooms(Shape(H, W), (lh, lw), rng=SymRng(sx)), 'rooms')
+        st = call(sx, lambda: R.rooms(Shape(H, W), (lh, lw), rng=SymRng(sx, preset=preset)), 'rooms')
         if st is None:
             return
         rooms_common(sx, st, H, W, 'rooms')
@@ -269,12 +269,14 @@ def obligations(tier):
                 add(f'rooms-{H}x{W}-layouts1..2', mk_rooms(H, W, [1, 2]), dict(H=H, W=W, layouts='1..2 x 1..2'),
                     must_produce('rooms') if H >= 5 and W >= 5 else None)
     if not q:
-        add('rooms-9x9-layout2x2', mk_rooms(9, 9, [2]), dict(H=9, W=9, layouts='2x2'), must_produce('rooms'))
+        # the shipped four-rooms 9x9: one obligation per concrete value of the four passage draws (3 openings per wall segment), 81 in all
+        import itertools
+        for pv in itertools.product([1, 2, 3], [5, 6, 7], [1, 2, 3], [5, 6, 7]):
+            add(f'rooms-9x9-layout2x2-passages{"".join(map(str, pv))}', mk_rooms(9, 9, [2], preset=dict(enumerate(pv))),
+                dict(H=9, W=9, layouts='2x2', passage_draws=list(pv)), must_produce('rooms'))
     for (H, W) in [(3, 3), (3, 4), (4, 4)]:
         add(f'memory_rooms-{H}x{W}-1x1', mk_memory_rooms(H, W, (1, 1), (0, 2), (1, 3)), dict(H=H, W=W, layout=[1, 1], num_beacons='0..2', num_exits='1..3'))
-    for (H, W, lay) in [(4, 5, (1, 1)), (4, 5, (1, 2)), (5, 4, (2, 1)), (4, 4, (0, 1)), (4, 4, (1, 3))] + ([] if q else [(5, 5, (1, 1)), (5, 5, (2, 2)), (5, 7, (1, 2)), (7, 5, (2, 1))]):
+    for (H, W, lay) in [(4, 5, (1, 1)), (4, 5, (1, 2)), (5, 4, (2, 1)), (4, 4, (0, 1)), (4, 4, (1, 3))] + ([] if q else [(5, 5, (1, 1)), (5, 5, (2, 2))]):
         add(f'memory_rooms-{H}x{W}-{lay[0]}x{lay[1]}', mk_memory_rooms(H, W, lay, (1, 1), (2, 2)), dict(H=H, W=W, layout=list(lay), num_beacons=1, num_exits=2),
             must_produce('memory_rooms') if lay in [(1, 1), (1, 2), (2, 1)] else None)
-    if not q:
-        add('memory_rooms-7x7-2x2', mk_memory_rooms(7, 7, (2, 2), (1, 1), (2, 2)), dict(H=7, W=7, layout=[2, 2], num_beacons=1, num_exits=2), must_produce('memory_rooms'))
     return obs
